@@ -1,7 +1,7 @@
 (* C19 -- Analysis tables are a faithful tabulation of the frame results.
    Model: Model/Analyzer.v (PerceptionAnalyzer3D.add / add_frame / format2df / format2dict, get_num_*, get_pair_results,
    calculate_error, summarize_error, summarize_ratio, get_confusion_matrix, analyze, generate_area_points / get_area_idx,
-   get_object_status); proofs: Proofs/AnalyzerProofs.v.  Statements only.
+   get_object_status); proofs: Proofs/AnalyzerProofs.v, Proofs/AnalyzerProofs2.v.  Statements only.
 
    Vocabulary: a frame result [f] is its four pass/fail lists f_tp (estimate, ground truth), f_fp (estimate, ground truth
    option), f_tn, f_fn, its frame number and f_ncrit = the number of critical ground truths.  [build areas scenes] is the
@@ -10,7 +10,7 @@
    [accounted f] is C03's conservation law for the frame: f_ncrit = |TP| + |TN| + |FN| + |FP pairs whose ground truth is
    FP-labelled| (every critical ground truth is in exactly one of these); the correspondence checks it on every real frame. *)
 From Coq Require Import List Bool ZArith Arith.
-From PE Require Import Base.QUtil Model.Analyzer Proofs.AnalyzerProofs.
+From PE Require Import Base.QUtil Model.Analyzer Proofs.AnalyzerProofs Proofs.AnalyzerProofs2.
 Import ListNotations.
 Open Scope Q_scope.
 
@@ -108,6 +108,283 @@ Theorem C19_gt_count_eq_critical_gt_partial : forall areas scenes,
 Proof. exact gt_count_eq_critical_iff. Qed.
 Print Assumptions C19_gt_count_eq_critical_gt_partial.
 
+(* ---- 5. errors = ground truth minus estimate of the paired items.  [paired_items scenes] are the (estimate, ground truth)
+   pairs of every frame: its TP pairs, then its FP pairs that have a ground truth.  [item_error P c (e, g)] is
+   col c g - col c e, wrapped by [wrap P] for the yaw column; the "distance" column is kept squared. *)
+Theorem C19_errors_are_paired_differences : forall P c areas scenes,
+  calculate_error P c (build areas scenes) = map (item_error P c) (paired_items scenes) /\
+  calculate_distance2 (build areas scenes) = map item_dist2 (paired_items scenes).
+Proof. exact errors_are_paired_differences. Qed.
+Print Assumptions C19_errors_are_paired_differences.
+
+(* the yaw error of two yaws in [-P, P] (P = the value used for pi) lies in [-P, P] and is the difference modulo 2P *)
+Theorem C19_yaw_error_wrapped : forall P g e,
+  0 < P -> - P <= g <= P -> - P <= e <= P ->
+  - P <= wrap P (g - e) <= P /\
+  (wrap P (g - e) == g - e \/ wrap P (g - e) == g - e - 2 * P \/ wrap P (g - e) == g - e + 2 * P).
+Proof. exact yaw_error_wrapped. Qed.
+Print Assumptions C19_yaw_error_wrapped.
+
+(* ---- 6. summaries: average, RMS (kept squared: s_ms), std (kept squared: s_var), max |.|, min |.| of a non-empty error list *)
+Theorem C19_summaries_are_mean_rms_std_max_min : forall l, l <> [] ->
+  exists s, summarize l = Some s /\
+    let n := Qnat (List.length l) in
+    s_avg s * n == qsum l /\
+    s_ms s * n == qsum (map (fun v => v * v) l) /\
+    s_var s * n == qsum (map (fun v => (v - s_avg s) * (v - s_avg s)) l) /\
+    s_var s == s_ms s - s_avg s * s_avg s /\ 0 <= s_var s /\
+    (forall v, In v l -> qabs v <= s_max s) /\ (exists v, In v l /\ s_max s = qabs v) /\
+    (forall v, In v l -> s_min s <= qabs v) /\ (exists v, In v l /\ s_min s = qabs v).
+Proof. exact summaries_defs. Qed.
+Print Assumptions C19_summaries_are_mean_rms_std_max_min.
+
+(* the "ALL" row of summarize_error on the built table summarizes exactly those differences (None = all NaN when there is
+   no paired item); a label row summarizes the error pairs of the row pairs whose ground-truth row has that label *)
+Theorem C19_summary_all_is_summary_of_paired_differences : forall P c areas scenes,
+  summarize_error P None c (build areas scenes) = summarize (map (item_error P c) (paired_items scenes)).
+Proof. exact summarize_error_all_build. Qed.
+Print Assumptions C19_summary_all_is_summary_of_paired_differences.
+
+Theorem C19_summary_label_is_summary_of_label_pairs : forall P l c t,
+  summarize_error P (Some l) c t =
+    match label_entries l t with [] => None | t' => summarize (calculate_error P c t') end.
+Proof. exact summarize_error_label_def. Qed.
+Print Assumptions C19_summary_label_is_summary_of_label_pairs.
+
+(* ---- 7. rates.  [ratios_in01 r]: the TP, FP, TN, FN rates of the row are all in [0, 1].
+   The "ALL" row: every built table and every selection q of its row pairs (analyze() selects with such a q), F11 overcount
+   included; no hypothesis. *)
+Theorem C19_rates_unit_interval_all : forall areas scenes (q : Entry -> bool),
+  ratios_in01 (ratio_row None (filter q (build areas scenes))).
+Proof. exact rates_unit_interval_all. Qed.
+Print Assumptions C19_rates_unit_interval_all.
+
+(* a label row.  The property says: in [0, 1]. *)
+Definition C19_label_rates_unit_interval_statement : Prop :=
+  forall areas scenes l,
+    (forall f, In f (all_frames scenes) -> accounted f) ->
+    ratios_in01 (ratio_row (Some l) (build areas scenes)).
+
+(* F15 witness (replayed against the real analyzer by harness/props/C19.py: known_probe): "unknown" is a target label, two
+   unknown estimates are TP on two car ground truths, one unknown ground truth is missed: TP rate of "unknown" = 2/1 *)
+Theorem C19_label_rates_unit_interval_refuted :
+  exists areas scenes l,
+    (forall f, In f (all_frames scenes) -> accounted f) /\
+    1 < q_tp (ratio_row (Some l) (build areas scenes)).
+Proof. exact label_rate_unit_interval_refuted. Qed.
+Print Assumptions C19_label_rates_unit_interval_refuted.
+
+Theorem C19_label_rates_unit_interval_statement_is_false : ~ C19_label_rates_unit_interval_statement.
+Proof. exact label_rates_statement_false. Qed.
+Print Assumptions C19_label_rates_unit_interval_statement_is_false.
+
+(* the guard: TP pairs carry equal labels (then also under every selection q) *)
+Theorem C19_rates_unit_interval_label_partial : forall areas scenes (q : Entry -> bool) l,
+  (forall f e g, In f (all_frames scenes) -> In (e, g) (f_tp f) -> o_label e = o_label g) ->
+  ratios_in01 (ratio_row (Some l) (filter q (build areas scenes))).
+Proof. exact rates_unit_interval_label. Qed.
+Print Assumptions C19_rates_unit_interval_label_partial.
+
+(* analyze(selection, distance=...): the first row ("ALL") always, every row under the guard *)
+Theorem C19_analyze_rates_unit_interval : forall P nt nc cs dist areas scenes a,
+  analyze P nt nc cs dist (build areas scenes) = Some a ->
+  (exists r rest, a_ratio a = r :: rest /\ ratios_in01 r) /\
+  ((forall f e g, In f (all_frames scenes) -> In (e, g) (f_tp f) -> o_label e = o_label g) ->
+   forall r, In r (a_ratio a) -> ratios_in01 r).
+Proof. exact analyze_rates_unit_interval. Qed.
+Print Assumptions C19_analyze_rates_unit_interval.
+
+(* ---- 8. confusion matrix of ANY table t (so also of every selection): nc x nc, sums to the number of paired rows, entry
+   [i][j] = number of paired rows with ground-truth label i and estimate label j; None iff no paired row; it raises
+   (list.index) iff a paired row has a label outside the nc known ones *)
+Theorem C19_confusion_matrix_sums_to_pairs : forall nc t,
+  match get_confusion_matrix nc t with
+  | CMOk m =>
+      labels_ok nc (pair_results t) /\ pair_results t <> [] /\
+      List.length m = nc /\
+      list_sum (concat m) = List.length (pair_results t) /\
+      forall i j, (i < nc)%nat -> (j < nc)%nat ->
+        nth j (nth i m []) 0%nat =
+          List.length (filter (fun p : Row * Row => Nat.eqb (o_label (r_obj (fst p))) i && Nat.eqb (o_label (r_obj (snd p))) j)
+                              (pair_results t))
+  | CMNone => pair_results t = []
+  | CMError => ~ labels_ok nc (pair_results t)
+  end.
+Proof. exact confusion_sums_to_pairs. Qed.
+Print Assumptions C19_confusion_matrix_sums_to_pairs.
+
+(* on the built table the paired rows are the paired items of the frames *)
+Theorem C19_paired_rows_count : forall areas scenes,
+  List.length (pair_results (build areas scenes)) =
+    sum_over (fun f => (List.length (f_tp f) + List.length (fp_with_gt f))%nat) (all_frames scenes).
+Proof. exact pair_results_build_length. Qed.
+Print Assumptions C19_paired_rows_count.
+
+(* ---- 9. get_area_idx on the areas of generate_area_points, for ALL rational max_x, max_y and every point (x, y).
+   Vocabulary (Proofs/AnalyzerProofs2.v): [in_band M k v] = v lies strictly inside the k-th third of (-M, M) counted from
+   +M (theorem C19_in_band_def); [band M v] = that k as an option, [whole M v] = (-M < v < M) as a bool;
+   [area_spec n mx my x y] = the documented index: 0 for 1 area, the x band for 3 areas (x forward: area 0 is the front
+   third), 3 * (y band) + (x band) for 9 areas (the model of np.meshgrid / reshape: areas 0, 1, 2 share the y band
+   (my/3, my) and go from front to rear), None (ANone) when a coordinate is in no band.
+   get_area_idx returns AMany where np.where(..)[0].item() raises (two areas contain the point). *)
+Theorem C19_in_band_def : forall M v,
+  (in_band M 0 v <-> M / 3 < v /\ v < M) /\
+  (in_band M 1 v <-> - (M / 3) < v /\ v < M / 3) /\
+  (in_band M 2 v <-> - M < v /\ v < - (M / 3)) /\
+  (forall k, in_band M (S (S (S k))) v <-> False) /\
+  (forall k, band M v = Some k <-> in_band M k v) /\
+  (band M v = None <-> forall k, ~ in_band M k v) /\
+  (whole M v = true <-> - M < v /\ v < M) /\
+  (forall i j, in_band M i v -> in_band M j v -> i = j).
+Proof. exact band_vocabulary. Qed.
+Print Assumptions C19_in_band_def.
+
+(* generate_area_points is defined exactly for 1, 3, 9 divisions and returns that many areas *)
+Theorem C19_generate_area_points_defined : forall n mx my,
+  (generate_area_points n mx my = None <-> (n <> 1 /\ n <> 3 /\ n <> 9)%nat) /\
+  (forall areas, generate_area_points n mx my = Some areas -> List.length areas = n).
+Proof. exact generate_area_points_defined. Qed.
+Print Assumptions C19_generate_area_points_defined.
+
+(* get_area_idx is the band function *)
+Theorem C19_area_idx_is_band_function : forall n mx my x y areas,
+  generate_area_points n mx my = Some areas -> get_area_idx areas x y = area_spec n mx my x y.
+Proof. exact get_area_idx_is_band_function. Qed.
+Print Assumptions C19_area_idx_is_band_function.
+
+(* never two areas at once (the areas are pairwise disjoint): it never raises *)
+Theorem C19_area_idx_never_raises : forall n mx my x y areas,
+  generate_area_points n mx my = Some areas -> get_area_idx areas x y <> AMany.
+Proof. exact area_idx_never_many. Qed.
+Print Assumptions C19_area_idx_never_raises.
+
+(* spelled out: an index exactly when the point is strictly inside that rectangle, None exactly when it is in none *)
+Theorem C19_area_idx_1_division : forall mx my x y areas, generate_area_points 1 mx my = Some areas ->
+  (forall k, get_area_idx areas x y = AOne k <-> k = 0%nat /\ (- mx < x /\ x < mx) /\ (- my < y /\ y < my)) /\
+  (get_area_idx areas x y = ANone <-> ~ (- mx < x /\ x < mx) \/ ~ (- my < y /\ y < my)).
+Proof. exact area_idx_div1. Qed.
+Print Assumptions C19_area_idx_1_division.
+
+Theorem C19_area_idx_3_divisions : forall mx my x y areas, generate_area_points 3 mx my = Some areas ->
+  (forall k, get_area_idx areas x y = AOne k <-> in_band mx k x /\ (- my < y /\ y < my)) /\
+  (get_area_idx areas x y = ANone <-> (forall i, ~ in_band mx i x) \/ ~ (- my < y /\ y < my)).
+Proof. exact area_idx_div3. Qed.
+Print Assumptions C19_area_idx_3_divisions.
+
+Theorem C19_area_idx_9_divisions : forall mx my x y areas, generate_area_points 9 mx my = Some areas ->
+  (forall k, get_area_idx areas x y = AOne k <-> exists i j, k = (3 * j + i)%nat /\ in_band mx i x /\ in_band my j y) /\
+  (get_area_idx areas x y = ANone <-> (forall i, ~ in_band mx i x) \/ (forall j, ~ in_band my j y)).
+Proof. exact area_idx_div9. Qed.
+Print Assumptions C19_area_idx_9_divisions.
+
+(* for max_x, max_y > 0: None exactly outside (-max, max) or on a grid line *)
+Theorem C19_area_idx_none_iff_outside_or_on_grid_line : forall mx my x y, 0 < mx -> 0 < my ->
+  (forall areas, generate_area_points 3 mx my = Some areas ->
+     (get_area_idx areas x y = ANone <->
+        (~ (- mx < x /\ x < mx) \/ x == mx / 3 \/ x == - (mx / 3)) \/ ~ (- my < y /\ y < my))) /\
+  (forall areas, generate_area_points 9 mx my = Some areas ->
+     (get_area_idx areas x y = ANone <->
+        (~ (- mx < x /\ x < mx) \/ x == mx / 3 \/ x == - (mx / 3)) \/
+        (~ (- my < y /\ y < my) \/ y == my / 3 \/ y == - (my / 3)))).
+Proof. exact area_none_iff_off_grid. Qed.
+Print Assumptions C19_area_idx_none_iff_outside_or_on_grid_line.
+
+(* ---- 10. get_object_status(frame_results).  Vocabulary: [frame_gt_uuids f] = the uuids of the ground truths frame f
+   reports a status for, in the order of the add_status calls (theorem C19_frame_gt_uuids_def); [firsts l] = the distinct
+   elements of l in order of first appearance; [occ u f gts] = the frame number of f, once per ground truth of gts whose
+   uuid is u; [tp_gts f] / [fp_gts f] = the ground truths of the TP pairs / of the FP pairs that have one. *)
+Theorem C19_frame_gt_uuids_def : forall f,
+  frame_gt_uuids f = map o_uuid (map snd (f_tp f) ++ map snd (fp_with_gt f) ++ f_tn f ++ f_fn f) /\
+  (forall u gts, occ u f gts = map (fun _ => f_num f) (filter (fun g => Nat.eqb (o_uuid g) u) gts)) /\
+  (forall u l, firsts (u :: l) = u :: filter (fun v => negb (Nat.eqb v u)) (firsts l)) /\ firsts [] = [].
+Proof. exact status_vocabulary. Qed.
+Print Assumptions C19_frame_gt_uuids_def.
+
+(* one record per distinct ground-truth uuid, in order of first appearance *)
+Theorem C19_object_status_records : forall frames,
+  map g_uuid (get_object_status frames) = firsts (flat_map frame_gt_uuids frames) /\
+  NoDup (map g_uuid (get_object_status frames)) /\
+  (forall u, In u (map g_uuid (get_object_status frames)) <-> exists f, In f frames /\ In u (frame_gt_uuids f)).
+Proof. exact object_status_records. Qed.
+Print Assumptions C19_object_status_records.
+
+(* the record of uuid u: its TP / FP / TN / FN frame lists are the frame numbers, frame after frame, in which a ground truth
+   with that uuid is the ground truth of a TP pair / of an FP pair / in tn_objects / in fn_objects; the total list is the
+   concatenation, per frame, of these four *)
+Theorem C19_object_status_is_the_tally : forall frames,
+  get_object_status frames =
+    map (fun u => mkGtStatus u
+           (flat_map (fun f => occ u f (tp_gts f) ++ occ u f (fp_gts f) ++ occ u f (f_tn f) ++ occ u f (f_fn f)) frames)
+           (flat_map (fun f => occ u f (tp_gts f)) frames)
+           (flat_map (fun f => occ u f (fp_gts f)) frames)
+           (flat_map (fun f => occ u f (f_tn f)) frames)
+           (flat_map (fun f => occ u f (f_fn f)) frames))
+        (firsts (flat_map frame_gt_uuids frames)).
+Proof. exact object_status_explicit. Qed.
+Print Assumptions C19_object_status_is_the_tally.
+
+(* "each ground truth once per frame": no frame number twice in the total list of a record (frames have distinct numbers) *)
+Definition C19_status_once_per_frame_statement : Prop :=
+  forall frames,
+    (forall f, In f frames -> accounted f) -> NoDup (map f_num frames) ->
+    forall g, In g (get_object_status frames) -> NoDup (g_total g).
+
+(* F11 witness (same frame as above, replayed by known_probe): g1 is the ground truth of the failing pair (t1, g1) and is
+   in fn_objects: its record has frame 0 twice, once as FP and once as FN *)
+Theorem C19_status_once_per_frame_refuted :
+  exists frames, (forall f, In f frames -> accounted f) /\ NoDup (map f_num frames) /\
+    exists g, In g (get_object_status frames) /\ g_uuid g = 1%nat /\ g_total g = [0; 0]%nat /\ g_fp g = [0%nat] /\ g_fn g = [0%nat].
+Proof. exact status_once_per_frame_refuted. Qed.
+Print Assumptions C19_status_once_per_frame_refuted.
+
+Theorem C19_status_once_per_frame_statement_is_false : ~ C19_status_once_per_frame_statement.
+Proof. exact status_once_per_frame_statement_false. Qed.
+Print Assumptions C19_status_once_per_frame_statement_is_false.
+
+(* the exact guard: it holds if and only if, in every frame, the ground truths with a status have distinct uuids *)
+Theorem C19_status_once_per_frame_partial : forall frames, NoDup (map f_num frames) ->
+  ((forall g, In g (get_object_status frames) -> NoDup (g_total g))
+   <-> forall f, In f frames -> NoDup (frame_gt_uuids f)).
+Proof. exact status_once_per_frame_iff. Qed.
+Print Assumptions C19_status_once_per_frame_partial.
+
 (* ---- non-vacuity: the witness frame satisfies the hypothesis and has all kinds of items but TN *)
 Example C19_nonvacuous_accounted : accounted w_frame /\ fp_ordinary w_frame <> [] /\ List.length (build w_areas [[w_frame]; [w_frame]]) = 8%nat.
 Proof. split; [vm_compute; reflexivity|split; [discriminate|vm_compute; reflexivity]]. Qed.
+
+(* the F15 witness satisfies the hypothesis of the refutation and violates the guard of the partial theorem *)
+Example C19_nonvacuous_f15 :
+  accounted u_frame /\ (exists e g, In (e, g) (f_tp u_frame) /\ o_label e <> o_label g) /\
+  q_tp (ratio_row (Some 3%nat) (build w_areas [[u_frame]])) == 2.
+Proof. split; [vm_compute; reflexivity|split; [|vm_compute; reflexivity]]. eexists; eexists; split; [left; reflexivity|discriminate]. Qed.
+
+(* the guard of the label-rate theorem is satisfiable on a frame with TP, FP and FN items, and the yaw theorem's on real yaws *)
+Example C19_nonvacuous_equal_labels :
+  (forall f e g, In f (all_frames [[w_frame]]) -> In (e, g) (f_tp f) -> o_label e = o_label g) /\
+  wrap (355 # 113) ((3 # 1) - (- (3) # 1)) == 6 - 2 * (355 # 113).
+Proof.
+  split; [|vm_compute; reflexivity]. intros f e g [<-|[]] [H|[]]. injection H as <- <-. reflexivity.
+Qed.
+
+(* areas: the 9-division of +-48 x +-96 has the point (40, 40) in area 0 (front left), (0, 0) in area 4, (-40, -40) in area 8,
+   (16, 0) on a grid line and (50, 0) outside *)
+Example C19_nonvacuous_areas :
+  exists areas, generate_area_points 9 48 96 = Some areas /\
+    get_area_idx areas 40 40 = AOne 0 /\ get_area_idx areas 0 40 = AOne 1 /\ get_area_idx areas 40 0 = AOne 3 /\
+    get_area_idx areas 0 0 = AOne 4 /\ get_area_idx areas (-40) (-40) = AOne 8 /\
+    get_area_idx areas 16 0 = ANone /\ get_area_idx areas 50 0 = ANone /\
+    in_band 48 0 40 /\ in_band 96 1 0.
+Proof. eexists. split; [reflexivity|]. repeat split; vm_compute; reflexivity. Qed.
+
+(* status tallies: two frames (numbers 0 and 1) over three ground truths with distinct uuids: the guard of the partial theorem
+   holds and the records are non-trivial *)
+Example C19_nonvacuous_status :
+  let f0 := mkFrame 0 [(w_t0, w_g0)] [] [] [w_g2] 2 in
+  let f1 := mkFrame 1 [(w_t0, w_g0)] [(w_t1, None)] [w_g2] [w_g1] 3 in
+  NoDup (map f_num [f0; f1]) /\ (forall f, In f [f0; f1] -> NoDup (frame_gt_uuids f)) /\
+  get_object_status [f0; f1] =
+    [mkGtStatus 0 [0; 1]%nat [0; 1]%nat [] [] []; mkGtStatus 2 [0; 1]%nat [] [] [1%nat] [0%nat]; mkGtStatus 1 [1%nat] [] [] [] [1%nat]].
+Proof.
+  cbv zeta. split; [repeat constructor; simpl; intuition discriminate|]. split; [|vm_compute; reflexivity].
+  intros f [<-|[<-|[]]]; vm_compute; repeat constructor; simpl; intuition discriminate.
+Qed.
